@@ -186,6 +186,56 @@ def lingering_descendant(ctx):
         ctx.nontriv("lingering-descendant", code)
 
 
+def optional_parameters(ctx):
+    """the same outcomes when the caller uses timed_run's optional parameters (`preexec_fn`, `env`, `inp`): a child that
+    sleeps past the limit is killed AT the limit and reported TIMEOUT, one that ends earlier is classified by its code"""
+    import signal
+    import time
+    from lithium.interestingness import timed_run
+
+    class Blocked(Exception):
+        pass
+
+    def on_alarm(signum, frame):
+        raise Blocked()
+
+    marker = loaders.scratch() / "c18-survived.txt"
+    for label, kwargs in (("preexec_fn", dict(preexec_fn=lambda: None)), ("preexec_fn-umask", dict(preexec_fn=lambda: os.umask(0o22))),
+                          ("env", dict(env=dict(os.environ, C18_X="1"))), ("inp", dict(inp="some input\n"))):
+        for mode in ("pipe", "file"):
+            prefix = None if mode == "pipe" else str(loaders.scratch() / f"c18-opt-{os.getpid()}")
+            for cmd, limit, want, want_rc in (([sys.executable, "-c", f"import time; time.sleep(6); open({str(marker)!r}, 'w').write('x')"], 1, "TIMEOUT", None),
+                                              (["/bin/sh", "-c", "exit 3"], 10, "ABNORMAL", 3), (["/bin/sh", "-c", "kill -11 $$"], 10, "CRASH", -11)):
+                if marker.exists():
+                    marker.unlink()
+                case = dict(cmd=cmd[:2] + ["..."], timeout=limit, mode=mode, label=f"optional-parameter:{label}")
+                ctx.evaluations += 1
+                ctx.bump("optional-parameters")
+                old = signal.signal(signal.SIGALRM, on_alarm)
+                signal.setitimer(signal.ITIMER_REAL, 5.0)
+                t0 = time.monotonic()
+                rd = None
+                try:
+                    rd = timed_run.timed_run(cmd, limit, prefix, **kwargs)
+                except Blocked:
+                    ctx.fail("runner-blocked", f"{label}/{mode}: timed_run was not back 5 s after a {limit} s limit (child: {cmd[:2]})", case)
+                except Exception as exc:  # pylint: disable=broad-except
+                    ctx.fail("timed-run-raises", f"{label}/{mode}: timed_run raised {type(exc).__name__}: {exc}", case)
+                finally:
+                    signal.setitimer(signal.ITIMER_REAL, 0)
+                    signal.signal(signal.SIGALRM, old)
+                took = time.monotonic() - t0
+                if rd is not None:
+                    if rd.status.name != want or rd.return_code != want_rc:
+                        ctx.fail("status", f"{label}/{mode}: status {rd.status.name}, return_code {rd.return_code} for {cmd[:3]}; expected {want}, {want_rc}", case)
+                    elif want == "TIMEOUT" and (took > 3.5 or alive(rd.pid)):
+                        ctx.fail("child-alive", f"{label}/{mode}: back after {took:.1f} s for a 1 s limit; child {rd.pid} alive: {alive(rd.pid)}", case)
+                    ctx.nontriv("optional-parameters", label, mode, want)
+    time.sleep(0.1)
+    if marker.exists():
+        marker.unlink()
+
+
 def preset_environment(ctx):
     """the classification does not depend on what the caller's environment says about sanitizers: exit code 77 is the
     crash code, whatever `exitcode=` an inherited ASAN_OPTIONS names"""
@@ -206,6 +256,7 @@ def run(ctx) -> int:
     proof = common.proof_stage(ctx.pid)
     stubborn_child(ctx)
     lingering_descendant(ctx)
+    optional_parameters(ctx)
     preset_environment(ctx)
     sh = "/bin/sh"
     codes = range(0, 256)
